@@ -212,6 +212,9 @@ void OPNMIDIplay::resetMIDI()
 
     m_midiChannels.clear();
     m_midiChannels.resize(16, MIDIchannel());
+    // The MIDI devices selected by the previous song were offsets into the channels just dropped
+    m_midiDevices.clear();
+    m_currentMidiDevice.clear();
 
     resetMIDIDefaults();
 
